@@ -12,6 +12,9 @@ def main():
         if not os.path.isdir(d) or (only and sid not in only):
             continue
         meta = json.load(open(os.path.join(d, 'meta.json')))
+        if meta.get('superseded'):
+            rows.append((sid, meta['breaks_property'], 'superseded: ' + meta['superseded'][:70]))
+            continue
         prop = meta.get('checked_by_property') or meta['breaks_property']   # (sd-C20: set order after a rejected call is C14's demand)
         wt = tempfile.mkdtemp(prefix='sreg-', dir='/tmp')
         os.rmdir(wt)
